@@ -250,7 +250,15 @@ def render(prog, twin=False):
             lines.append(f"    {c} = {700 + i}")
     lines.append(f"{ind}def {prog['name']}({params}):")
     body_ind = ind + "    "
-    body = (binds(prog["params"], body_ind) if twin else []) + p_block(prog["body"], body_ind, twin)
+    stmts = list(prog["body"])
+    head = []
+    if twin:
+        # leading nonlocal declarations come first in the twin, each followed by the report of the value the variable
+        # has at entry (ptera reports the closure variables a function uses before its parameters)
+        while stmts and stmts[0]["s"] == "nonlocal":
+            st = stmts.pop(0)
+            head += [f"{body_ind}nonlocal {st['v']}"] + binds([st["v"]], body_ind)
+    body = head + (binds(prog["params"], body_ind) if twin else []) + p_block(stmts, body_ind, twin)
     lines += body
     if prog["closure"]:
         lines.append(f"    return {prog['name']}")
